@@ -48,7 +48,8 @@ CHECKS["C03"] = dict(
     level_text="After every event of every history the verdict of Inhibitor.Mutes for 7 probe label sets (target, two-sided target, other/missing/empty equal value, unrelated, non-target) and the reported inhibiting fingerprint are compared with the documented existential rule evaluated on the set of currently firing alerts, so order independence is checked by construction (all orders reaching a firing set meet the same set-based oracle).",
     level_note="One rule (equality matchers, one equal label), 5 sources, ends +2m/+10m, advances 1m/5m/16m. The 15m source-cache GC ticker is replaced by an explicit GC event (same function). Instants where an end equals now are not judged.",
     assumptions=E1_ASSUME + ["ground truth = alerts held by the real provider whose end is in the future"],
-    units=[dict(pkg="inhibit", test="TestVerifC03", shards_quick=16, shards_thorough=16, budget_quick=60, budget_thorough=900)],
+    units=[dict(pkg="inhibit", test="TestVerifC03", shards_quick=16, shards_thorough=16, budget_quick=60, budget_thorough=900),
+           dict(pkg="app", test="TestVerifC03App", shards_quick=16, shards_thorough=16, budget_quick=100, budget_thorough=1200)],
 )
 
 CHECKS["C02"] = dict(
@@ -60,7 +61,8 @@ CHECKS["C02"] = dict(
     level_note="Bounds: 3 silences (one with two matcher sets), time unit 1s, ends +2/+4, retention 3; depth 6 (quick) / 9 (thorough). Instants where an end equals now are not judged. Pruning is sound because the key is the complete state and the code is deterministic.",
     assumptions=E1_ASSUME,
     units=[dict(pkg="silence", test="TestVerifC02Obj", shards_quick=12, shards_thorough=16, budget_quick=90, budget_thorough=1200),
-           dict(pkg="silence", test="TestVerifC02Sched", gomaxprocs=1, shards_quick=4, shards_thorough=16, budget_quick=60, budget_thorough=900)],
+           dict(pkg="silence", test="TestVerifC02Sched", gomaxprocs=1, shards_quick=4, shards_thorough=16, budget_quick=60, budget_thorough=900),
+           dict(pkg="app", test="TestVerifC02App", shards_quick=16, shards_thorough=16, budget_quick=100, budget_thorough=1200)],
 )
 
 CHECKS["C12"] = dict(
